@@ -161,7 +161,9 @@ def one(rec, hub, seed, tier, i):
             sel = rng.random(flat.size)
             flat[sel < 0.3] = 0.0
             flat[(sel >= 0.3) & (sel < 0.6)] *= -1.0
-        x = fd.FlodymArray(dims=dims, values=v2.copy())
+        from ..gen import relayout
+
+        x = fd.FlodymArray(dims=dims, values=relayout(v2.copy(), rng))  # C, Fortran or strided memory layout
         values = v2
         for kw in (dict(), dict(index=False), dict(sparse=True), dict(index=False, sparse=True)) + tuple(dict(dim_to_columns=(s[0] if rng.random() < 0.5 else s[1]), index=bool(rng.integers(0, 2))) for s in spec if len(s[2]) > 1 and (s[3] is not None or isinstance(s[2][0], str))):
             rec.event(MR, sig=f"rt|{k}|{sorted(kw.items())}|{types}", cls=f"roundtrip|{'wide' if 'dim_to_columns' in kw else 'long'}")
